@@ -1,7 +1,9 @@
 """C07 borrowed arguments reflect the callee's updates -- write-back pairing clause.
 
-R-C07.1  every call compiler reaches `_update_inout_ports` on every normal path, after the
-         call operation was added, with the call's own arguments and function type.
+R-C07.1  every call compiler (local / global / tensor / barrier), interpreted with recorder tokens on function types with 0..2
+         inputs over {owned, borrowed} and 0..1 results: the write-back is invoked once per call, after the call operation,
+         with the call's own argument nodes, the outputs after the regular results and the call's function type; the result
+         packs the regular results (c07_calls.py; CFG must-call pairing only as fallback).
 R-C07.2  `_update_inout_ports`, interpreted on all argument lists up to length 3 over
          {not borrowed, borrowed place, borrowed subscripted place, borrowed non-place}:
          the k-th borrowed input receives the k-th extra output port, places are rebound to
@@ -11,8 +13,9 @@ R-C07.3  the HUGR signature returns exactly the borrowed inputs after the regula
          (and omits comptime inputs), on all small input lists.
 R-C07.4  the index of a subscripted place is compiled once and reused for the write-back
          (`visit_PlaceNode` / `_assign_place` guard on `subscript.item not in self.dfg`).
-R-C07.5  comptime tracing writes borrowed values back (`trace_call` -> update_packed_value
-         for every Inout input).
+R-C07.5  comptime tracing writes borrowed values back: `trace_call` interpreted on argument lists of length <= 3 over
+         {owned, borrowed} with recorder tokens: update_packed_value once per borrowed argument, in order, with the post-call
+         wire and the variable's type; a failed update raises GuppyComptimeError (c07_trace.py).
 Not decided: which value the caller observes at run time.
 """
 
@@ -44,36 +47,39 @@ def run(ctx: Ctx) -> None:
     ctx.saw("classes", comp.qualname)
 
     # ------------------------------------------------------------ R-C07.1
-    sites = ["visit_GlobalCall", "visit_LocalCall", "_compile_tensor_with_leftovers", "visit_BarrierExpr"]
-    for m in sites:
-        f = comp.methods.get(m)
-        if f is None:
-            raise AnalysisError(f"ExprCompiler.{m} vanished")
-        g = CFG(f.node)
-        upd = [n for n in g.nodes if any(call_name(c) == "_update_inout_ports" for c in node_calls(n))]
-        call_ops = {"add_op", "compile_call"}
-        # every path that adds the call op passes the write-back before leaving
-        op_nodes = [n for n in g.nodes if any(call_name(c) in call_ops and ("Call" in ast.unparse(c) or call_name(c) == "compile_call" or "op" in ast.unparse(c.args[0] if c.args else c)) for c in node_calls(n))]
-        ok_after = bool(upd) and all(g.exit not in g.reachable(n.id, blocked=lambda x: any(call_name(c) == "_update_inout_ports" for c in node_calls(x))) or n in upd for n in op_nodes)
-        ok_dom = bool(upd) and all(g.dominated_by(u, lambda x: x in op_nodes) for u in upd)
-        # arguments: the same arg list that was compiled, and the function type of this call
-        args_ok = True
-        facts = {}
-        for u in upd:
-            for c in node_calls(u):
-                if call_name(c) == "_update_inout_ports":
-                    a0, a2 = ast.unparse(c.args[0]), ast.unparse(c.args[2]) if len(c.args) > 2 else ""
-                    compiled = [ast.unparse(cc.args[0]) for cc in calls_in(f.node) if call_name(cc) == "_compile_call_args"]
-                    facts = {"write_back_args": a0, "compiled_args": compiled, "func_ty": a2}
-                    if compiled and a0 not in compiled:
-                        args_ok = False
-        ctx.check(ok_after and ok_dom and args_ok, "R-C07.1", f"{f.qualname}#write-back-after-call", f.where,
-                  {"call_ops": len(op_nodes), "write_back_on_all_paths_after_call": ok_after, "call_before_write_back": ok_dom, **facts},
-                  "after this kind of call the caller keeps using the pre-call wires of its borrowed arguments: the callee's in-place updates are lost")
-    vt = comp.methods.get("visit_TensorCall")
-    g = CFG(vt.node) if vt else None
-    ctx.check(vt is not None and any(call_name(c) == "_compile_tensor_with_leftovers" for c in calls_in(vt.node)), "R-C07.1", f"{comp.qualname}.visit_TensorCall#delegates", vt.where if vt else comp.where, {},
-              "tensor calls bypass the write-back of borrowed arguments")
+    from . import c07_calls
+    if not c07_calls.run(ctx):
+        # fallback (a call compiler could not be interpreted): must-call pairing of the call operation with the write-back on the CFG
+        sites = ["visit_GlobalCall", "visit_LocalCall", "_compile_tensor_with_leftovers", "visit_BarrierExpr"]
+        for m in sites:
+            f = comp.methods.get(m)
+            if f is None:
+                raise AnalysisError(f"ExprCompiler.{m} vanished")
+            g = CFG(f.node)
+            upd = [n for n in g.nodes if any(call_name(c) == "_update_inout_ports" for c in node_calls(n))]
+            call_ops = {"add_op", "compile_call"}
+            # every path that adds the call op passes the write-back before leaving
+            op_nodes = [n for n in g.nodes if any(call_name(c) in call_ops and ("Call" in ast.unparse(c) or call_name(c) == "compile_call" or "op" in ast.unparse(c.args[0] if c.args else c)) for c in node_calls(n))]
+            ok_after = bool(upd) and all(g.exit not in g.reachable(n.id, blocked=lambda x: any(call_name(c) == "_update_inout_ports" for c in node_calls(x))) or n in upd for n in op_nodes)
+            ok_dom = bool(upd) and all(g.dominated_by(u, lambda x: x in op_nodes) for u in upd)
+            # arguments: the same arg list that was compiled, and the function type of this call
+            args_ok = True
+            facts = {}
+            for u in upd:
+                for c in node_calls(u):
+                    if call_name(c) == "_update_inout_ports":
+                        a0, a2 = ast.unparse(c.args[0]), ast.unparse(c.args[2]) if len(c.args) > 2 else ""
+                        compiled = [ast.unparse(cc.args[0]) for cc in calls_in(f.node) if call_name(cc) == "_compile_call_args"]
+                        facts = {"write_back_args": a0, "compiled_args": compiled, "func_ty": a2}
+                        if compiled and a0 not in compiled:
+                            args_ok = False
+            ctx.check(ok_after and ok_dom and args_ok, "R-C07.1", f"{f.qualname}#write-back-after-call", f.where,
+                      {"call_ops": len(op_nodes), "write_back_on_all_paths_after_call": ok_after, "call_before_write_back": ok_dom, **facts},
+                      "after this kind of call the caller keeps using the pre-call wires of its borrowed arguments: the callee's in-place updates are lost")
+        vt = comp.methods.get("visit_TensorCall")
+        g = CFG(vt.node) if vt else None
+        ctx.check(vt is not None and any(call_name(c) == "_compile_tensor_with_leftovers" for c in calls_in(vt.node)), "R-C07.1", f"{comp.qualname}.visit_TensorCall#delegates", vt.where if vt else comp.where, {},
+                  "tensor calls bypass the write-back of borrowed arguments")
 
     # ------------------------------------------------------------ R-C07.2
     up = comp.methods.get("_update_inout_ports")
@@ -178,7 +184,7 @@ def run(ctx: Ctx) -> None:
                 for kw in node.keywords:
                     captured[kw.arg] = e.ev(kw.value, env)
                 return Tok("hugr_fn")
-            env = {"self": Tok("self", inputs=inputs, output=Tok("out")), th.node.args.args[1].arg: Tok("ctx"),
+            env = {"self": Tok("self", inputs=inputs, output=Tok("out"), __classes__=ft.mro()), th.node.args.args[1].arg: Tok("ctx"),
                    "type_to_row": lambda node, e, env: out_tys, "ht.FunctionType": h_ft, "InputFlags": Tok("InputFlags", Inout="Inout", Comptime="Comptime")}
             n += 1
             try:
@@ -221,11 +227,14 @@ def run(ctx: Ctx) -> None:
               "loses its own (with all earlier in-place updates)")
 
     # ------------------------------------------------------------ R-C07.5 tracing write-back
-    tc = idx.find_func("trace_call", "guppylang_internals.tracing.function")
-    loops = [n for n in walk_no_nested(tc.node) if isinstance(n, ast.For) and "func.ty.inputs" in ast.unparse(n.iter)]
-    ok = False
-    if loops:
-        body = ast.unparse(loops[0])
-        ok = "InputFlags.Inout in inp.flags" in body and "update_packed_value(" in body and not any(isinstance(x, (ast.Break, ast.Continue)) for s in loops[0].body for x in walk_no_nested(s))
-    ctx.check(ok, "R-C07.5", f"{tc.qualname}#writes-back-every-borrowed-argument", tc.where, {"loops": len(loops)},
-              "a comptime function calling a Guppy function that borrows an argument keeps the pre-call wires")
+    from . import c07_trace
+    if not c07_trace.run(ctx):
+        # fallback (trace_call not interpretable): the loop over the inputs mentions the flag test and the update helper
+        tc = idx.find_func("trace_call", "guppylang_internals.tracing.function")
+        loops = [n for n in walk_no_nested(tc.node) if isinstance(n, ast.For) and "func.ty.inputs" in ast.unparse(n.iter)]
+        ok = False
+        if loops:
+            body = ast.unparse(loops[0])
+            ok = "InputFlags.Inout in inp.flags" in body and "update_packed_value(" in body and not any(isinstance(x, (ast.Break, ast.Continue)) for s in loops[0].body for x in walk_no_nested(s))
+        ctx.check(ok, "R-C07.5", f"{tc.qualname}#writes-back-every-borrowed-argument", tc.where, {"loops": len(loops)},
+                  "a comptime function calling a Guppy function that borrows an argument keeps the pre-call wires")
